@@ -640,6 +640,34 @@ func Positions(t Tier) []*Grammar {
 		}
 		out = append(out, grs...)
 	}
+	// grammars that name the elided Comment type explicitly (Pos unspecified, Tokens / EndPos still are)
+	{
+		lv := []func() *g.Node{capOf(ref("Ident")), lit("b"),
+			func() *g.Node { return g.Grp(capMark(g.Ref("Comment")), '?') },
+			func() *g.Node { return g.Grp(capMark(g.Ref("Comment")), '*') },
+			capOf(ref("Comment")),
+		}
+		lv = append(lv, subLeaves([]int{0, 1}, []byte{0, '*'})...)
+		mm := map[int][]func() *g.Node{}
+		var es []func() *g.Node
+		es = append(es, terms(2, lv, mm)...)
+		if t == Thorough {
+			es = append(es, terms(3, []func() *g.Node{capOf(ref("Ident")), func() *g.Node { return g.Grp(capMark(g.Ref("Comment")), '?') }, subLeaves([]int{0}, []byte{0})[0]}, map[int][]func() *g.Node{})...)
+		}
+		grs := build("pos-explicit", thin(top(es), every), []scheme{schemeOwn}, "abc", 3)
+		for _, gr := range grs {
+			setPositions(gr.Root, 0)
+			gr.Elide = ElideAll
+			gr.Spaced = true
+			gr.Fills = []string{"", "#", " #"}
+			gr.SpacedLen = 2
+			gr.Positions = true
+			gr.NamesElided = true
+			gr.Lookaheads = []int{1, -1}
+		}
+		out = append(out, grs...)
+	}
+	out = append(out, positionsRecursive(t)...)
 	if t == Thorough {
 		small := []func() *g.Node{lit("b"), capOf(ref("Ident"))}
 		small = append(small, subLeaves([]int{0, 1, 5}, []byte{0})...)
@@ -731,3 +759,38 @@ func Terms(n int, leaves []LeafFn) []LeafFn       { return terms(n, leaves, map[
 func Top(ts []LeafFn) []LeafFn                    { return top(ts) }
 func AssignOwn(name string, body *g.Node) *g.Prod { return assign(name, body, schemeOwn) }
 func CapMark(x *g.Node) *g.Node                   { return capMark(x) }
+
+// positionsRecursive: recursive productions (through union types, so reflect.StructOf can build
+// them) whose every node carries Pos / EndPos / Tokens: nested occurrences of one and the same type.
+func positionsRecursive(t Tier) []*Grammar {
+	var out []*Grammar
+	mk := func(name string, body func(u *g.Prod) *g.Node) {
+		u := &g.Prod{Name: "U0", UnionSlot: 0, Members: []*g.Prod{nil}} // placeholder so that fields get the union kind
+		s := assign("R", body(u), schemeOwn)
+		u.Members = []*g.Prod{s}
+		// the root is the struct itself (wrapped by the harness); recursion goes through U0
+		gr := &Grammar{Family: "pos-rec-" + name, Root: s, Alphabet: "ab;", MaxLen: 4, Elide: ElideAll, Spaced: true, Fills: []string{"", " ", "\n#"}, SpacedLen: 3, Positions: true, Lookaheads: []int{1, 2, -1}}
+		if t == Quick {
+			gr.Fills = []string{"", " #"}
+		}
+		setPositions(s, 0)
+		out = append(out, gr)
+	}
+	// R = "a" R? "b"-style bracketed / right recursion in several shapes
+	mk("bracket", func(u *g.Prod) *g.Node {
+		return g.Alt(g.Seq(g.Lit("a"), g.Sub(-1, u), g.Lit("b")), capMark(g.Lit(";")))
+	})
+	mk("right", func(u *g.Prod) *g.Node {
+		return g.Seq(capMark(g.Ref("Ident")), g.Grp(g.Sub(-1, u), '?'))
+	})
+	mk("list", func(u *g.Prod) *g.Node {
+		return g.Seq(g.Lit("a"), g.Grp(g.Sub(-1, u), '*'), g.Lit("b"))
+	})
+	mk("backtrack", func(u *g.Prod) *g.Node {
+		return g.Alt(g.Seq(g.Lit("a"), g.Sub(-1, u), g.Lit(";")), g.Seq(g.Lit("a"), g.Sub(-1, u), g.Lit("b")), capMark(g.Lit("b")))
+	})
+	mk("two", func(u *g.Prod) *g.Node {
+		return g.Seq(capMark(g.Lit("a")), g.Grp(g.Seq(g.Sub(-1, u), g.Lit(";"), g.Sub(-1, u)), '?'))
+	})
+	return out
+}
